@@ -13,48 +13,29 @@
 #include <igris/container/sline.h>
 #include <igris/shell/vtermxx.h>
 
-// igris::vtermxx keeps its readline private; the harness reads len / cursor /
-// text through it.  Access by explicit instantiation (no change to the header).
+// igris::vtermxx keeps its readline private and has no accessor for it; the harness reads len / cursor / text /
+// the automaton states through the private members.  Round 3b: this translation unit is compiled with
+// -fno-access-control (checks/C15.json) and every internal name is used inside `if constexpr (requires ...)`:
+// a renamed / removed / retyped member degrades to "not visible" (the session then judges the terminal by its
+// callbacks and written bytes only) instead of breaking the build.
 namespace
 {
-    template <class Tag, typename Tag::type M> struct rob
+    template <class V> auto *rl_of(V &v)
     {
-        friend typename Tag::type get(Tag) { return M; }
-    };
-    struct vt_rl
+        if constexpr (requires { v.rl.line().current_size(); }) return &v.rl;
+        else return (igris::readline *)nullptr;
+    }
+    template <class V> int vstate_of(V &v)
     {
-        typedef igris::readline igris::vtermxx::*type;
-        friend type get(vt_rl);
-    };
-    template struct rob<vt_rl, &igris::vtermxx::rl>;
-    struct vt_state
+        if constexpr (requires { (int)v.state; }) return (int)v.state;
+        else return c15::NOT_VISIBLE;
+    }
+    template <class R> int rstate_of(R &r)
     {
-        typedef int igris::vtermxx::*type;
-        friend type get(vt_state);
-    };
-    template struct rob<vt_state, &igris::vtermxx::state>;
-    struct rl_state
-    {
-        typedef int igris::readline::*type;
-        friend type get(rl_state);
-    };
-    template struct rob<rl_state, &igris::readline::_state>;
-    // type-agnostic variant (the member's type is deduced: a narrowed index type must show as a
-    // difference of `consts2`, not as a harness that no longer compiles)
-    template <class Tag, auto M> struct rob2
-    {
-        friend auto get2(Tag) { return M; }
-    };
-    struct rl_head
-    {
-        friend auto get2(rl_head);
-    };
-    template struct rob2<rl_head, &igris::readline::_headhist>;
-    struct rl_cur
-    {
-        friend auto get2(rl_cur);
-    };
-    template struct rob2<rl_cur, &igris::readline::_curhist>;
+        if constexpr (requires { (int)r._state; }) return C15_CANON_RSTATE((int)r._state);
+        else return c15::NOT_VISIBLE;
+    }
+    template <class V> constexpr bool rl_visible = requires(V &v) { v.rl.line().current_size(); };
 }
 
 namespace c15
@@ -109,6 +90,8 @@ namespace c15
         bool set_size_cursor(unsigned len, unsigned cur) override { s.set_size_and_cursor(len, cur); return true; }
         int backspace(unsigned n) override { return s.backspace((int)n); }
         int del(unsigned n) override { return s.del((int)n); }
+        int backspace_i(int n) override { return s.backspace(n); }
+        int del_i(int n) override { return s.del(n); }
         int left() override { return s.left(); }
         int right() override { return s.right(); }
         void reset() override { s.reset(); }
@@ -135,7 +118,7 @@ namespace c15
         std::string text() override { return std::string(rl.line().data(), rl.line().current_size()); }
         std::string tail() override { return ""; }
         int linecpy(char *dst, size_t maxlen) override { return rl.linecpy(dst, maxlen); }
-        int state() override { return rl.*get(rl_state()); }
+        int state() override { return rstate_of(rl); }
     };
     ireadline *make_readline_x(unsigned cap, unsigned depth) { return new readline_x(cap, depth); }
 
@@ -159,17 +142,48 @@ namespace c15
         std::string pstore;
         void set_prompt(const std::string &p) override { pstore = p; v.set_prompt(pstore.c_str()); }
         void set_echo(bool e) override { v.set_echo(e ? 1 : 0); }
-        int state() override { return v.*get(vt_state()); }
-        int rlstate() override { return (v.*get(vt_rl())).*get(rl_state()); }
-        unsigned len() override { return (unsigned)(v.*get(vt_rl())).line().current_size(); }
-        unsigned cursor() override { return (unsigned)((v.*get(vt_rl())).line().current_size() - (v.*get(vt_rl())).line().rightsize()); }
-        std::string text() override { return std::string((v.*get(vt_rl())).line().data(), (v.*get(vt_rl())).line().current_size()); }
+        bool line_visible() override { return rl_visible<igris::vtermxx>; }
+        int state() override { return vstate_of(v); }
+        int rlstate() override
+        {
+            if constexpr (rl_visible<igris::vtermxx>) return rstate_of(*rl_of(v));
+            else return NOT_VISIBLE;
+        }
+        template <class V> static unsigned len_of(V &v)
+        {
+            if constexpr (rl_visible<V>) return (unsigned)rl_of(v)->line().current_size();
+            else return 0;
+        }
+        template <class V> static unsigned cur_of(V &v)
+        {
+            if constexpr (rl_visible<V>) return (unsigned)(rl_of(v)->line().current_size() - rl_of(v)->line().rightsize());
+            else return 0;
+        }
+        template <class V> static std::string text_of(V &v)
+        {
+            if constexpr (rl_visible<V>) return std::string(rl_of(v)->line().data(), rl_of(v)->line().current_size());
+            else return std::string();
+        }
+        unsigned len_() override { return len_of(v); }
+        unsigned cursor_() override { return cur_of(v); }
+        std::string text_() override { return text_of(v); }
     };
     ivterm *make_vterm_x(unsigned cap, unsigned depth, bool echo) { return new vterm_x(cap, depth, echo); }
 
+    template <class R> static size_t head_size(R &r)
+    {
+        if constexpr (requires { sizeof(r._headhist); }) return sizeof(r._headhist);
+        else return 0;
+    }
+    template <class R> static size_t cur_size(R &r)
+    {
+        if constexpr (requires { sizeof(r._curhist); }) return sizeof(r._curhist);
+        else return 0;
+    }
     std::string consts2_x()
     {
         igris::readline r;
-        return std::to_string(sizeof(r.*get2(rl_head()))) + " " + std::to_string(sizeof(r.*get2(rl_cur())));
+        return "w-xx-headhist=" + std::to_string(head_size(r)) + ",w-xx-curhist=" + std::to_string(cur_size(r)) +
+               (rl_visible<igris::vtermxx> ? ",xx-internals-visible" : ",xx-internals-NOT-visible");
     }
 }
